@@ -28,13 +28,24 @@ RULE = ("kernel level: the full tie grid (every end point, every value exactly o
         "subsets of the dims or on an extra dim, values and end points on the dyadic grid k/2 so that values sit exactly on end points, "
         "finite / infinite / per-dimension end points, rectangular and trapezoidal shapes, alpha and Huber parameters from a grid, all "
         "request spellings, NaN injected) plus a malformed stream; a near-tie stream off the grid (arbitrary binary64 values of magnitude 1e-9 .. 1e9 "
-        "and 0, forecast errors of relative size 1e-11 .. 1e-1 or absolute size 1e-14 .. 1e-8, exact ties) against the exact oracle; a case is distinct by the hash of (function, inputs, options) and "
+        "and 0, forecast errors of relative size 1e-11 .. 1e-1 or absolute size 1e-14 .. 1e-8, exact ties) against the exact oracle; integer storage dtypes (one or BOTH operands unsigned / int8) against the oracle on the values; +-inf "
+        "among forecasts / observations against the integral over theta on the extended reals (value or NaN where the closed formula is inf - inf, "
+        "never another number); a case is distinct by the hash of (function, inputs, options) and "
         "non-trivial when it yields a finite value or exercises an error path")
 ASSUMPTIONS = ["labelled inputs carry identical label sets along shared dimensions (storage order, dimension order and scalar / array end points vary freely)"]
 TRUSTED = ["R-level theorems (coq/proofs/C10_RInt*.v): Coq Reals + Coquelicot 3.x and their standard axioms, as listed per theorem"]
 
 INF = float("inf")
 NAN = float("nan")
+# counters every complete run must have incremented (one per predicate family / input class); see core.run_check
+EXPECT_COUNTS = ["table_b1_oracle_points", "kernel_grid_points_g_phi", "kernel_grid_points_consistent", "coord_order_corpus", "guard_probes", "near_tie_rounds",
+                 "near_tie_decisive_points", "replacement_rounds", "perdim_rounds", "means_rounds", "int_dtype_corpus", "int_dtype_rounds", "int_dtype:uint8",
+                 "int_dtype:uint16", "int_dtype:int64", "int_dtype:both-narrow", "int_dtype:consistent", "integral_rounds", "pointwise_rounds",
+                 "infinite_data_rounds", "infinite_data:defined", "infinite_data:consistent_quantile", "ok", "err:ValueError", "shape:trap", "shape:rect",
+                 "fn:tw_squared_error", "fn:tw_absolute_error", "fn:tw_quantile_score", "fn:tw_expectile_score", "fn:tw_huber_loss", "ends:array",
+                 "ends:scalar", "ends:infinite", "malformed:", "data:infinite", "consistent:quantile", "consistent:expectile", "consistent:huber"]
+# repaired by repo_fixes/consistent-scores-integer-dtype.diff: `obs - fcst` / `fcst - obs` were taken in the integer storage dtype of the data
+KEY_INT_DIFF = "consistent-scores-integer-dtype"
 FNS = ["tw_squared_error", "tw_absolute_error", "tw_quantile_score", "tw_expectile_score", "tw_huber_loss"]
 ALPHAS = [Fr(1, 10), Fr(1, 4), Fr(1, 2), Fr(3, 4), Fr(9, 10)]
 HUBERS = [Fr(1, 2), Fr(1), Fr(5, 2), Fr(4)]
@@ -165,6 +176,13 @@ def gen_case(ctx, bad=False):
     obs = mk(rng, sizes, odims, operms, nan_p=0.12 if rng.random() < 0.3 else 0.0)
     if rng.random() < 0.4:
         obs = gens.force_ties(rng, fcst, obs)
+    if rng.random() < 0.12:      # +-inf as valid data (model tie: the model evaluates the same closed formulas by IEEE rules, NaN for inf - inf)
+        for da in (fcst, obs):
+            v = da.values.ravel().copy()
+            for q in range(v.size):
+                if rng.random() < 0.3:
+                    v[q] = rng.choice([INF, -INF])
+            da.values = v.reshape(da.shape)
     w = None
     if rng.random() < 0.3:
         wd = gens.sub_dims(rng, sizes, p_drop=0.4)
@@ -790,8 +808,8 @@ def means_props(ctx, rounds):
 
 
 def int_dtype_props(ctx, rounds):
-    """integer storage dtypes (uint8 / uint16 / int64; minimum 0 and maximum 255 included) for fcst or obs (at most one unsigned operand:
-    `fcst - obs` on two unsigned arrays wraps by numpy semantics everywhere in the library), the other float64 or int64; rectangular and
+    """integer storage dtypes (uint8 / uint16 / int64; minimum 0 and maximum 255 included) for fcst or obs, the other float64, int64 or ALSO a
+    narrow integer type (two unsigned arrays, two int8 arrays: the difference of the stored values does not fit the storage dtype); rectangular and
     trapezoidal weights with finite, -inf / +inf, scalar and per-dimension end points: the scores are those of the same VALUES in float64
     (exact oracle).  The stand-ins for infinite end points must not be computed in the storage dtype (0 - 1 wraps for unsigned data)."""
     rng = ctx.rng
@@ -810,8 +828,29 @@ def int_dtype_props(ctx, rounds):
         other_int = rng.random() < 0.25
         xv = [Fr(rng.randint(-4, 24), 1) if other_int else Fr(rng.randint(-8, 48), 2) for _ in range(n)]
         int_is_obs = rng.random() < 0.6
+        # BOTH operands in a narrow integer storage dtype whose difference does not fit (two unsigned types of any widths: 3 - 5 wraps;
+        # two int8 arrays: 100 - (-100) overflows): the scores are still those of the VALUES
+        both = rng.random() < 0.35
+        odt = "int64"
+        if both:
+            if rng.random() < 0.2:
+                dt = odt = "int8"
+                iv = [rng.randint(-128, 127) if big else rng.randint(-12, 12) for _ in range(n)]
+                xv = [Fr(rng.randint(-128, 127) if big else rng.randint(-12, 12)) for _ in range(n)]
+            else:
+                if dt == "int64":
+                    dt = "uint8"
+                    iv = [max(0, v) for v in iv]
+                odt = rng.choice(["uint8", "uint16", "uint32"])
+                xv = [Fr(rng.randint(0, 255 if big else 24)) for _ in range(n)]
+            if rng.random() < 0.4:
+                q = rng.randrange(n)
+                if np.iinfo(odt).min <= iv[q] <= np.iinfo(odt).max:
+                    xv[q] = Fr(iv[q])            # exact hits
+            other_int = True
+            ctx.count("int_dtype:both-narrow")
         I = xr.DataArray(np.array(iv, dtype=dt), dims=["x"])
-        X = xr.DataArray(np.array([int(v) for v in xv], dtype="int64") if other_int else [float(v) for v in xv], dims=["x"])
+        X = xr.DataArray(np.array([int(v) for v in xv], dtype=odt) if other_int else [float(v) for v in xv], dims=["x"])
         F, O = (X, I) if int_is_obs else (I, X)
         fv, ov = ([Fr(v) for v in xv], [Fr(v) for v in iv]) if int_is_obs else ([Fr(v) for v in iv], [Fr(v) for v in xv])
         trap = rng.random() < 0.6
@@ -841,8 +880,30 @@ def int_dtype_props(ctx, rounds):
             got = None if st != "ok" else [float(x) for x in np.asarray(v.values, dtype=float).ravel()]
             if got is None or not all(core.close(g, w) for g, w in zip(got, want)):
                 ctx.violation("tw_* on integer-typed data differs from the score of the same values in float64", case, [str(w) for w in want],
-                              got if got is not None else v)
+                              got if got is not None else v,
+                              finding_key=KEY_INT_DIFF if (both and got is not None and fn in ("tw_squared_error", "tw_expectile_score", "tw_huber_loss")) else None)
                 break
+        if both or rng.random() < 0.3:
+            # the public consistent_* functions on the same integer-typed data with textbook callables: g(x) = x, phi(x) = x^2, phi'(x) = 2x
+            # (pinball loss, asymmetric squared error, Huber loss of the VALUES); the callables themselves work in floating point, so the
+            # only arithmetic in the storage dtype is the library's own
+            C = S()
+            ctx.count("int_dtype:consistent")
+            sq, two = (lambda x: (1.0 * x) ** 2), (lambda x: 2.0 * x)
+            calls = [("consistent_quantile_score", (float(alpha), lambda x: x), [orc_losses(alpha, hub, fv[i], ov[i])[2] for i in range(n)]),
+                     ("consistent_expectile_score", (float(alpha), sq, two), [orc_losses(alpha, hub, fv[i], ov[i])[3] for i in range(n)]),
+                     ("consistent_huber_score", (float(hub), sq, two), [orc_losses(alpha, hub, fv[i], ov[i])[4] for i in range(n)])]
+            for cname, args, want in calls:
+                st, v = core.call_impl(getattr(C, cname), F, O, *args, preserve_dims="all")
+                case = {"fn": cname, "alpha": alpha, "huber_param": hub, "g / phi / phi'": "x / (1.0 x)^2 / 2.0 x", "fcst": [str(x) for x in fv], "fcst_dtype": str(F.dtype),
+                        "obs": [str(x) for x in ov], "obs_dtype": str(O.dtype)}
+                ctx.case(("intdtype-consistent", repr(case)))
+                got = None if st != "ok" else [float(x) for x in np.asarray(v.values, dtype=float).ravel()]
+                if got is None or not all(core.close(g, w) for g, w in zip(got, want)):
+                    ctx.violation(cname + " on integer-typed data differs from the score of the same values in float64 (and may be negative)", case,
+                                  [str(w) for w in want], got if got is not None else v,
+                                  finding_key=KEY_INT_DIFF if (F.dtype.kind in "iu" and O.dtype.kind in "iu" and got is not None) else None)
+                    break
         ctx.count("int_dtype_rounds")
 
 
@@ -863,6 +924,7 @@ def int_dtype_corpus(ctx):
                 want = core.call_impl(fn, ff.astype(float), oo.astype(float), *args, one, interval_where_positive=pos, preserve_dims="all")
                 got = core.call_impl(fn, ff, oo, *args, one, interval_where_positive=pos, preserve_dims="all")
                 ctx.case(("int-dtype-corpus", dt, repr(vals), name, ff is f))
+                ctx.count("int_dtype_corpus")
                 if not (want[0] == got[0] == "ok" and np.allclose(want[1].values, got[1].values, rtol=1e-12, atol=1e-12)):
                     ctx.violation(f"{name} (trapezoidal) depends on the integer storage dtype of the data (regression of ff792f5)",
                                   {"fn": name, "dtype": dt, "values": vals, "integer_operand": "obs" if ff is f else "fcst", "other": f.values.tolist(),
@@ -1080,6 +1142,7 @@ def coord_order_finding(ctx):
         want = core.call_impl(call, o_same)
         got = core.call_impl(call, o)
         ctx.case(("coord-order", name))
+        ctx.count("coord_order_corpus")
         same = want[0] == got[0] == "ok" and abs(float(want[1]) - float(got[1])) < 1e-12
         if not same:
             ctx.violation(f"{name} depends on the storage order of a coordinate shared by fcst and obs",
@@ -1126,6 +1189,152 @@ def coord_order_finding(ctx):
 
 
 # ------------------------------------------------------------------------------------------
+# +-inf among the data: the integral over theta of weight x elementary score on the extended reals (exact)
+# ------------------------------------------------------------------------------------------
+def isinf(v):
+    return isinstance(v, float) and v in (INF, -INF)
+
+
+def weight_pieces(ends):
+    """the threshold weight as pieces (x0, x1, c0, c1): w(t) = c0 + c1 * t on [x0, x1); end points may be +-inf (plateau only)"""
+    if len(ends) == 2:
+        return [(ends[0], ends[1], Fr(1), Fr(0))]
+    a, b, c, d = ends
+    out = []
+    if not isinf(b):
+        out.append((a, b, -a / (b - a), 1 / (b - a)))
+    out.append((b, c, Fr(1), Fr(0)))
+    if not isinf(c):
+        out.append((c, d, d / (d - c), -1 / (d - c)))
+    return out
+
+
+def integ(ends, u, v, kernel):
+    """int_u^v w(t) k(t) dt in [0, +inf] for a piecewise linear k >= 0 given as pieces (y0, y1, k0, k1): k(t) = k0 + k1 * t on [y0, y1)"""
+    tot = Fr(0)
+    for (x0, x1, c0, c1) in weight_pieces(ends):
+        for (y0, y1, k0, k1) in kernel:
+            lo, hi = max(x0, y0, u), min(x1, y1, v)
+            if not lo < hi:
+                continue
+            if isinf(lo) or isinf(hi):          # an unbounded piece: the weight is the constant 1 there
+                if k1 != 0 or c0 * k0 > 0:
+                    return INF
+                continue
+            A, B, C = c0 * k0, c0 * k1 + c1 * k0, c1 * k1
+            F = lambda t: A * t + B * t * t / 2 + C * t ** 3 / 3      # noqa: E731
+            tot += F(hi) - F(lo)
+    return tot
+
+
+def orc_tw_ext(ends, alpha, hub, f, o):
+    """the five tw_* values (order of FNS) as the integral over theta of weight(theta) x elementary score, on the extended reals: f, o and
+    the end points are Fractions or +-inf; values in [0, +inf].  For finite arguments this is orc_tw (checked on every run)."""
+    if f == o:
+        return [Fr(0)] * 5
+    over = o < f
+    u, v = (o, f) if over else (f, o)
+    W = integ(ends, u, v, [(-INF, INF, Fr(1), Fr(0))])
+    wt = (1 - alpha) if over else alpha
+    if isinf(o):        # |theta - obs| = inf on the whole region
+        M1 = INF if W > 0 else Fr(0)
+        H = INF if isinf(W) else hub * W
+    else:
+        M1 = integ(ends, u, v, [(-INF, o, o, Fr(-1)), (o, INF, -o, Fr(1))])
+        H = integ(ends, u, v, [(-INF, o - hub, hub, Fr(0)), (o - hub, o, o, Fr(-1)), (o, o + hub, -o, Fr(1)), (o + hub, INF, hub, Fr(0))])
+    mul = lambda k, x: INF if isinf(x) else k * x      # noqa: E731
+    return [mul(2, M1), W, mul(wt, W), mul(2 * wt, M1), H]
+
+
+def closed_form_defined(k, ends, f, o, neg_inf_datum):
+    """the classes of infinite data on which the documented closed formulas (Table B1 rows inside the consistent scoring functions),
+    evaluated by IEEE rules, are defined (no inf - inf): there the implementation must return the integral; elsewhere it may return NaN,
+    but never another number.  k = index into FNS; neg_inf_datum: some fcst / obs of the call is -inf."""
+    left_inf, right_inf = isinf(ends[0]), isinf(ends[-1])
+    if left_inf and neg_inf_datum:
+        return False        # the stand-in for the -inf end point is taken below the data: -inf (reported, docs/C10.md)
+    if k in (1, 2):         # tw_absolute_error, tw_quantile_score: weight x |g(fcst) - g(obs)|, g(+inf) = inf only for a +inf end point
+        return not (right_inf and f == INF and o == INF)
+    if k == 4:              # tw_huber_loss: phi(obs) is inf for obs = +inf
+        if left_inf:
+            return f == INF and not isinf(o)
+        return not isinf(o) or (o == -INF and f != -INF)
+    return False            # tw_squared_error, tw_expectile_score: phi(x) - phi'(x) x is inf - inf for infinite data
+
+
+def infinite_data_props(ctx, rounds):
+    """+-inf among the forecasts / observations (valid data: the integral over theta of weight x elementary score is a value in
+    [0, +inf]): every value the five tw_* return for such a case is either that integral or NaN (the closed formulas of Table B1 are
+    inf - inf there), never another number; on the classes where the closed formulas are defined by IEEE rules (closed_form_defined) it is
+    the integral; the finite cases of the same call are unaffected; consistent_quantile_score with g(x) = x gives the pinball loss."""
+    rng = ctx.rng
+    C = S()
+    for _ in range(rounds):
+        if not ctx.time_left():
+            break
+        n = rng.randint(1, 4)
+        val = lambda: rng.choice([INF, -INF]) if rng.random() < 0.3 else Fr(rng.randint(-8, 8), 2)      # noqa: E731
+        fv = [val() for _ in range(n)]
+        ov = [fv[i] if rng.random() < 0.1 else val() for i in range(n)]
+        if not any(isinf(x) for x in fv + ov):
+            (fv if rng.random() < 0.5 else ov)[rng.randrange(n)] = rng.choice([INF, -INF])
+        lo = Fr(rng.randint(-6, 2), 2)
+        hi = lo + Fr(rng.randint(1, 8), 2)
+        r = rng.random()
+        inf_l, inf_r = r < 0.2, 0.1 < r < 0.35
+        trap = rng.random() < 0.5
+        b, c = (-INF if inf_l else lo), (INF if inf_r else hi)
+        ends = (b, c) if not trap else ((-INF if inf_l else lo - 1), b, c, (INF if inf_r else hi + Fr(3, 2)))
+        one = (float(b), float(c))
+        pos = (float(ends[0]), float(ends[3])) if trap else None
+        alpha, hub = rng.choice(ALPHAS), rng.choice(HUBERS)
+        F = xr.DataArray([float(x) for x in fv], dims=["x"])
+        O = xr.DataArray([float(x) for x in ov], dims=["x"])
+        neg = any(x == -INF for x in fv + ov)
+        # sanity of the oracle itself on the finite cases of this call
+        for i in range(n):
+            if not isinf(fv[i]) and not isinf(ov[i]) and not any(isinf(e) for e in ends):
+                assert orc_tw_ext(ends, alpha, hub, fv[i], ov[i]) == orc_tw(ends, alpha, hub, fv[i], ov[i])
+        for k, fn in enumerate(FNS):
+            p = {"tw_quantile_score": alpha, "tw_expectile_score": alpha, "tw_huber_loss": hub}.get(fn)
+            st, v = call_tw(fn, F, O, p, one, pos, pd="all")
+            case = {"fn": fn, "param": p, "fcst": fv, "obs": ov, "interval_where_one": one, "interval_where_positive": pos}
+            ctx.case(("infdata", fn, repr(case)))
+            if st != "ok":
+                ctx.violation("tw_* raised on data containing +-inf", case, "values", v)
+                continue
+            got = [float(x) for x in np.asarray(v.values, dtype=float).ravel()]
+            for i in range(n):
+                want = orc_tw_ext(ends, alpha, hub, fv[i], ov[i])[k]
+                finite_case = not isinf(fv[i]) and not isinf(ov[i])
+                must = (finite_case and not (neg and isinf(ends[0]))) or (not finite_case and closed_form_defined(k, ends, fv[i], ov[i], neg))
+                if must:
+                    ctx.count("infinite_data:defined")
+                if (must or got[i] == got[i]) and not core.close(got[i], want):
+                    ctx.violation("tw_* on data containing +-inf differs from the integral over theta of weight x elementary score" if must else
+                                  "tw_* on data containing +-inf returns a number that is neither the integral over theta of weight x elementary score nor NaN",
+                                  dict(case, case_index=i), want, got[i])
+                    break
+        # pinball loss through the public consistent_quantile_score (g the identity): weight x |fcst - obs|, +inf for exactly one infinite
+        # member of the pair or two of opposite sign
+        st, v = core.call_impl(C.consistent_quantile_score, F, O, float(alpha), lambda x: x, preserve_dims="all")
+        ctx.count("infinite_data:consistent_quantile")
+        if st != "ok":
+            ctx.violation("consistent_quantile_score raised on data containing +-inf", {"fcst": fv, "obs": ov, "alpha": alpha}, "values", v)
+        else:
+            got = [float(x) for x in np.asarray(v.values, dtype=float).ravel()]
+            for i in range(n):
+                if isinf(fv[i]) and fv[i] == ov[i]:
+                    continue        # inf - inf
+                want = INF if (isinf(fv[i]) or isinf(ov[i])) else orc_losses(alpha, hub, fv[i], ov[i])[2]
+                if not core.close(got[i], want):
+                    ctx.violation("consistent_quantile_score (g the identity) on data containing +-inf differs from the pinball loss",
+                                  {"fcst": fv, "obs": ov, "alpha": alpha, "case_index": i}, want, got[i])
+                    break
+        ctx.count("infinite_data_rounds")
+
+
+# ------------------------------------------------------------------------------------------
 def model_available(ctx):
     b = getattr(ctx, "build", None) or {}
     return "C10" not in (b.get("excluded_models") or []) and b.get("files", {}).get("model/C10.v", {}).get("ok", True)
@@ -1144,6 +1353,7 @@ def run_without_model(ctx):
     means_props(ctx, ctx.n(25, 400))
     int_dtype_corpus(ctx)
     int_dtype_props(ctx, ctx.n(40, 600))
+    infinite_data_props(ctx, ctx.n(40, 600))
     integral_props(ctx, ctx.n(25, 400))
     pointwise_props(ctx, ctx.n(3, 40), use_model=False)
 
@@ -1164,6 +1374,7 @@ def run(ctx):
     means_props(ctx, ctx.n(25, 400))
     int_dtype_corpus(ctx)
     int_dtype_props(ctx, ctx.n(40, 600))
+    infinite_data_props(ctx, ctx.n(40, 600))
     integral_props(ctx, ctx.n(25, 400))
     # ---- public functions vs model, structured random cases ----
     for i in range(ctx.n(260, 4000)):
@@ -1185,6 +1396,8 @@ def run(ctx):
             ctx.count("ends:infinite")
         if c["bad"]:
             ctx.count("malformed:" + str(c["bad"]))
+        if bool(np.isinf(c["fcst"].values).any()) or bool(np.isinf(np.asarray(c["obs"].values, dtype=float)).any()):
+            ctx.count("data:infinite")
         if i < 3:
             ctx.sample(d)
         if not ok:
